@@ -84,3 +84,58 @@ package cmd
 //@   site#all Encode: rootConf.Packages[args[0]] != nil && cfg != nil && cfg.All != nil && *cfg.All == true && sameExcept(cfg, zero(config.Config), "All")
 //@   site#noifaces Encode: rootConf.Packages[args[0]].Interfaces != nil && (forall k string :: !(k in rootConf.Packages[args[0]].Interfaces))
 //@   returns#written called("OpenFile") == 1 && called("Encode") == 1 && lastErr("Encode") == nil
+
+// ---- the run (C09, C10, C07; C08 read sites) --------------------------------------------------------
+// "mocks with conflicting requirements for one output file (different source packages, package names or
+// templates) each produce a non-zero exit": a mock joins a file's collection exactly when its file path,
+// package name, source package and template agree with the collection's.
+//@ define sameFile(i *InterfaceCollection, iface *config.Interface) bool = i.outFilePath.String() == pathlib.NewPath(*iface.Config.Dir).Join(*iface.Config.FileName).Clean().String()
+//@     && i.outPkgName == *iface.Config.PkgName && i.srcPkgPath == iface.Pkg.PkgPath && i.template == *iface.Config.Template
+//@ func (*InterfaceCollection).Append props=C09,C10
+//@   ensures#iff (result == nil) <==> sameFile(i, iface)
+//@   ensures#appended result == nil ==> len(i.interfaces) == old(len(i.interfaces)) + 1 && i.interfaces[old(len(i.interfaces))] == iface
+//@         && (forall k int :: 0 <= k && k < old(len(i.interfaces)) ==> i.interfaces[k] == old(i.interfaces[k]))
+//@   ensures#rejected result != nil ==> i.interfaces == old(i.interfaces)
+//@   assigns i.interfaces
+
+// RootApp.Run. What is claimed here:
+//  C10  the only file-system mutations reachable are MkdirAll on the parent of an output path and
+//       WriteFile on an output path (fs-frame); a file is written only after its complete content was
+//       generated without error, its directory exists, and (it does not exist yet or force-file-write
+//       is set); output paths are exactly the FilePath() of selected mocks' configs.
+//  C09  no error of a stage is swallowed (a nil result means every stage that ran returned nil), and
+//       a listed interface that was not found ends the run with exit status 1.
+//  C07  a mock is appended for an interface only if ShouldGenerateInterface said so, once per entry
+//       of its configs list, with that entry as its config.
+//@ func (*RootApp).Run props=C10,C09,C07
+//@   safety fs-frame
+//@   requires Ghost() && Shape() && allPtrFieldsSet(r.Config.Config) && depth(r.Config.TemplateData) == 0 && depth(r.Config.Anchors) == 0
+//@   site#dir MkdirAll: $recv == pathlib.NewPath(outFilePath).Parent() && lastErr("Generate") == nil
+//@   site#write WriteFile: $recv == pathlib.NewPath(outFilePath) && $0 == templateBytes && lastErr("Generate") == nil && lastErr("MkdirAll") == nil && lastErr("Exists") == nil
+//@   site#guard WriteFile: !outFileExists || *packageConfig.Config.ForceFileWrite
+//@   site#collection NewInterfaceCollection: $0 == iface.Pkg.PkgPath && $1 == filePath && $2 == iface.Pkg && $3 == *ifaceConfig.PkgName && $4 == *ifaceConfig.Template
+//@         && filePath == pathlib.NewPath(*ifaceConfig.Dir).Join(*ifaceConfig.FileName).Clean().Clean()
+//@   site#selected Append: shouldGenerate && lastErr("ShouldGenerateInterface") == nil && lastErr("ParseTemplates") == nil
+//@   site#entry NewInterface: $0 == iface.Name && $1 == iface.FileName && $2 == iface.File && $3 == iface.Pkg && $4 == ifaceConfig
+//@   exits_if foundMissing
+//@   returns#nomissing result == nil ==> !foundMissing
+//@   returns#missing result == nil ==> (forall p string, k string :: (p in missingMap) ==> !(k in missingMap[p]))
+//@   returns#noswallow result == nil ==> lastErr("Initialize") == nil && lastErr("GetPackages") == nil && lastErr("ParsePackages") == nil
+//@   loop 0: invariant missingMap != nil
+//@   loop 0: invariant#inner forall q string :: (q in missingMap) ==> missingMap[q] != nil
+//@   loop 1: invariant#inner missingMap != nil && (p in missingMap) && (forall q string :: (q in missingMap) ==> missingMap[q] != nil)
+//@   loop 2: invariant mockFileToInterfaces != nil && remoteTemplateCache != nil && CacheInv(remoteTemplateCache)
+//@   loop 2: invariant#parsed forall k int :: 0 <= k && k < len(interfaces) ==> interfaces[k] != nil && len(interfaces[k].Pkg.GoFiles) > 0
+//@   loop 2: invariant#colls forall k string :: (k in mockFileToInterfaces) ==> mockFileToInterfaces[k] != nil && fresh(mockFileToInterfaces[k]) && len(mockFileToInterfaces[k].srcPkg.GoFiles) > 0
+//@   loop 2: invariant#members forall k string, j int :: (k in mockFileToInterfaces) && 0 <= j && j < len(mockFileToInterfaces[k].interfaces) ==> mockFileToInterfaces[k].interfaces[j] != nil && mockFileToInterfaces[k].interfaces[j].Config != nil
+//@   loop 2: invariant#errs (called("ShouldGenerateInterface") > 0 ==> lastErr("ShouldGenerateInterface") == nil) && (called("ParseTemplates") > 0 ==> lastErr("ParseTemplates") == nil) && (called("Append") > 0 ==> lastErr("Append") == nil)
+//@   loop 3: invariant mockFileToInterfaces != nil && shouldGenerate && lastErr("ShouldGenerateInterface") == nil && remoteTemplateCache != nil && CacheInv(remoteTemplateCache)
+//@   loop 3: invariant#parsed iface != nil && len(iface.Pkg.GoFiles) > 0 && (forall k int :: 0 <= k && k < len(interfaces) ==> interfaces[k] != nil && len(interfaces[k].Pkg.GoFiles) > 0)
+//@   loop 3: invariant#colls forall k string :: (k in mockFileToInterfaces) ==> mockFileToInterfaces[k] != nil && fresh(mockFileToInterfaces[k]) && len(mockFileToInterfaces[k].srcPkg.GoFiles) > 0
+//@   loop 3: invariant#members forall k string, j int :: (k in mockFileToInterfaces) && 0 <= j && j < len(mockFileToInterfaces[k].interfaces) ==> mockFileToInterfaces[k].interfaces[j] != nil && mockFileToInterfaces[k].interfaces[j].Config != nil
+//@   loop 3: invariant#errs (called("ParseTemplates") > 0 ==> lastErr("ParseTemplates") == nil) && (called("Append") > 0 ==> lastErr("Append") == nil)
+//@   loop 4: invariant#cache remoteTemplateCache != nil && CacheInv(remoteTemplateCache)
+//@   loop 4: invariant#errs (called("Generate") > 0 ==> lastErr("Generate") == nil) && (called("WriteFile") > 0 ==> lastErr("WriteFile") == nil) && (called("NewTemplateGenerator") > 0 ==> lastErr("NewTemplateGenerator") == nil)
+//@   loop 5: invariant#missing forall p string, k string :: !foundMissing && (p in missingMap) && $visited[p] ==> !(k in missingMap[p])
+//@   loop 6: invariant#missing forall p string, k string :: !foundMissing && (p in missingMap) && $outervisited[p] ==> !(k in missingMap[p])
+//@   loop 6: invariant#inner forall k string :: !foundMissing && (k in missingMap[packagePath]) ==> !$visited[k]
